@@ -6,7 +6,7 @@ CFG = {
     "signatures": {},
     "rule": "one case = one input slice followed by every algorithm run on a fresh copy of it. "
             "exhaustive: every slice of length <= 7 (thorough: 9) over keys {-1,0,1} tagged by position "
-            "(comparator ignores the tag) x {Selection, Insertion, Shell, Merge, MergeRec, Quick3Way, Heap, unshuffled quick, "
+            "(the comparator ignores the tag; 3*(k1-k2) at full length, and k1-k2, -1/0/+1, reversed k2-k1, sign*(1+(k1-k2)^2) up to length 5 (7) and at random in the random batch, so that only the sign of the comparator may matter) x {Selection, Insertion, Shell, Merge, MergeRec, Quick3Way, Heap, unshuffled quick, "
             "Quick, quick after a scripted Shuffle, Shuffle, Select k for every k, partition, merge}; every slice of length <= 3 (4) over "
             "{MinInt64,-1,0,1,MaxInt64} x {LSDInt, MSDInt, LSDUint, MSDUint}; every slice of length <= 4 (5) over 6 short strings and "
             "<= 3 (4) over 8 two-byte strings with 0x00/0xff x {MSDString, Quick3WayString (+unshuffled core), LSDString}; every radix case also runs slices.Sort (op Native) against the specification-level sorted list. "
